@@ -4,20 +4,16 @@ From V Require Import Base.Bits Gen.WireOps Gen.Prims Spec.C08 Model.StructLogic
 Definition item_ok (p : Z * Z) : Prop := 0 <= fst p /\ fits (fst p) (snd p).
 Definition cat_step (acc : Z) (p : Z * Z) : Z := Z.lor (Z.shiftl acc (fst p)) (snd p).
 
-Lemma fold_left_ext {A B} (f g : A -> B -> A) l a : (forall x y, f x y = g x y) -> fold_left f l a = fold_left g l a.
-Proof. intros H. revert a. induction l as [|y l IH]; intros a; cbn; [reflexivity|]. rewrite H. apply IH. Qed.
-
-(* the only place that looks at the generated definitions *)
+(* the only place that looks at the generated definitions: the loop body, in one or two statements, operands of | in
+   either order, is cat_step *)
+Ltac cat_body :=
+  cbv zeta; change Wire_put with trunc; f_equal;
+  apply fold_left_ext; intros x [w v]; unfold cat_step, py_shl; cbn [fst snd];
+  first [ reflexivity | apply Z.lor_comm ].
 Lemma ConcatMSBF_char wr ins : ConcatenateMSBF_m wr ins = trunc wr (fold_left cat_step ins 0).
-Proof.
-  unfold ConcatenateMSBF_m, ConcatenateMSBF_propagate. cbv zeta. change (Wire_put wr ?v) with (trunc wr v). f_equal.
-  apply fold_left_ext. intros x [w v]. reflexivity.
-Qed.
+Proof. unfold ConcatenateMSBF_m, ConcatenateMSBF_propagate. cat_body. Qed.
 Lemma ConcatLSBF_char wr ins : ConcatenateLSBF_m wr ins = trunc wr (fold_left cat_step (rev ins) 0).
-Proof.
-  unfold ConcatenateLSBF_m, ConcatenateLSBF_propagate. cbv zeta. change (Wire_put wr ?v) with (trunc wr v). f_equal.
-  apply fold_left_ext. intros x [w v]. reflexivity.
-Qed.
+Proof. unfold ConcatenateLSBF_m, ConcatenateLSBF_propagate. cat_body. Qed.
 
 Lemma total_width_cons p l : total_width (p :: l) = fst p + total_width l.
 Proof. reflexivity. Qed.
